@@ -88,11 +88,20 @@ def session_run(text: str, F, rng, mode=None):
         shutil.rmtree(d, ignore_errors=True)
 
 
-def execute(text, F, driver, rng):
+def execute(text, F, driver, rng, twin=False):
     from . import inline_driver
     if driver == "session":
         return session_run(text, F, rng)
-    return inline_driver.run_session({"test_case.py": text}, F)
+    files = {"test_case.py": text}
+    if twin:
+        # a second module with the same code (only its recorder logs nothing): call sites of different files are
+        # different sites even when their code objects are equal
+        files["test_twin.py"] = text.replace("import verif_rec as _r", "import verif_norec as _r", 1)
+    obs = inline_driver.run_session(files, F)
+    if twin:
+        obs["tests"] = [t for t in obs["tests"] if t.get("file") != "test_twin.py"]
+        obs["sites"] = {k: v for k, v in (obs.get("sites") or {}).items() if not k.startswith("test_twin.py:")}
+    return obs
 
 
 def compare(ops, srcs, prog, beta, text, exp, obs, driver, F, run_id):
@@ -220,9 +229,16 @@ def replay_one(run, seed: int, driver=None):
     if run.get("layout"):
         text = render_core.apply_layout(text, run["layout"], rng)
     F = [CATS[c] for c in exp["F"]]
-    obs = execute(text, F, driver, rng)
-    info = {"beta": beta.name, "F": F, "imp": imp, "driver": driver or "inline", "layout": run.get("layout")}
+    twin = bool(run.get("twin")) and driver != "session"
+    obs = execute(text, F, driver, rng, twin=twin)
+    info = {"beta": beta.name, "F": F, "imp": imp, "driver": driver or "inline", "layout": run.get("layout"), "twin": twin}
     mism = compare(ops, srcs, prog, beta, text, exp, obs, driver, F, run["id"])
+    if twin and not obs.get("finish_error") and not obs.get("import_error"):
+        a = obs["files"].get("test_case.py")
+        b = obs["files"].get("test_twin.py")
+        if isinstance(a, str) and isinstance(b, str) and b.replace("import verif_norec as _r", "import verif_rec as _r", 1) != a:
+            mism.append({"clause": "twin-differs", "props": ["C14", "C01"], "run": run["id"], "F": F, "ops": ops,
+                         "detail": {"case": a, "twin": b}})
     for m in mism:
         m["layout"] = run.get("layout")
     return mism, info, text, obs
